@@ -37,18 +37,20 @@ def showDec (p : Plans) (fam : String) (r : Res Val) : String :=
   | .abort => "abort\tallocs"
   | .outOfFuel => "out-of-fuel\tallocs"
 
-/-- `<hex>` optionally followed by `~<count>:<bb>` (`count` more copies of the byte `bb`): buffers far larger than the value -/
+/-- segments separated by `~`: `<hex>` (or `-`, empty) and `<count>:<bb>` (`count` copies of the byte `bb`): buffers and payloads far
+    larger than what a hex string should carry -/
 def bytesOfHexRL (s : String) : Option (List Byte) :=
-  match s.splitOn "~" with
-  | [h] => bytesOfHex h
-  | [h, r] =>
-    (match r.splitOn ":" with
-     | [n, b] =>
-       (match bytesOfHex h, n.toNat?, bytesOfHex b with
-        | some bs, some n, some [x] => some (bs ++ List.replicate n x)
-        | _, _, _ => none)
-     | _ => none)
-  | _ => none
+  (s.splitOn "~").foldr (fun seg acc =>
+    match acc with
+    | none => none
+    | some rest =>
+      (match seg.splitOn ":" with
+       | [h] => (bytesOfHex h).map (· ++ rest)
+       | [n, b] =>
+         (match n.toNat?, bytesOfHex b with
+          | some n, some [x] => some (List.replicate n x ++ rest)
+          | _, _ => none)
+       | _ => none)) (some [])
 
 def decRequest (st : DState) (f : List String) : String :=
   match f with
